@@ -2,8 +2,8 @@ package c16
 
 import (
 	"fmt"
-	"os"
 	"math/rand"
+	"os"
 	"sync"
 
 	"verif/harness/core"
@@ -120,7 +120,13 @@ func run(ctx *core.Ctx) error {
 	}
 	parts := make([][]genRec, len(cfgs))
 	partErr := make([]error, len(cfgs))
-	wg.Add(2 + len(cfgs))
+	var shapes []shape
+	var shapeErr error
+	wg.Add(3 + len(cfgs))
+	go func() {
+		defer wg.Done()
+		shapes, shapeErr = generateShapes(ctx, map[bool]string{false: "Gen_PageTreeShape_q.cfg", true: "Gen_PageTreeShape_t.cfg"}[ctx.Thorough()])
+	}()
 	go func() { defer wg.Done(); mcErr = checkModels(ctx) }()
 	for i, cfg := range cfgs {
 		go func(i int, cfg string) {
@@ -134,7 +140,7 @@ func run(ctx *core.Ctx) error {
 		sim, simErr = generate(ctx, "Gen_PageTree_sim.cfg", fmt.Sprintf("num=%d", n), 70, 1000+ctx.Seed, false)
 	}()
 	wg.Wait()
-	for _, err := range append([]error{mcErr, simErr}, partErr...) {
+	for _, err := range append([]error{mcErr, simErr, shapeErr}, partErr...) {
 		if err != nil {
 			return err
 		}
@@ -230,6 +236,76 @@ func run(ctx *core.Ctx) error {
 		}
 	}
 
+	// 4. the reader on trees the Writer did not produce (foreign.go)
+	fouts, err := runForeign(ctx, shapes, ctx.Pick(1, 2), ctx.Pick(20, 40), ctx.Pick(20, 40))
+	if err != nil {
+		return err
+	}
+	frecs := make([]record, len(fouts))
+	for i := range fouts {
+		frecs[i] = fouts[i].rec
+	}
+	fbad, err := judge(ctx, frecs, "", 12)
+	if err != nil {
+		return err
+	}
+	fIsBad := map[int]bool{}
+	classified := 0
+	for _, b := range fbad {
+		fIsBad[b] = true
+		if kind := nullClass(fouts[b].c); kind != "" && classified >= 3 {
+			// same class as records already classified with TLC's clause verdict
+			ctx.Violation("pagetree-reader/null-entry/"+kind, "pagetree reader: an inheritable attribute spelled \"/Key null\" masks the inherited value (further record of this class)", map[string]any{"foreign": fouts[b].c})
+			continue
+		}
+		if classified < 10 {
+			classified++
+			if err := reportForeign(ctx, fouts[b]); err != nil {
+				return err
+			}
+		} else if classified == 10 {
+			classified++
+			ctx.Violation("pagetree-reader/more", fmt.Sprintf("%d rejected reader records in all (not all classified)", len(fbad)), map[string]any{"foreign": fouts[b].c})
+		}
+	}
+	var fstat = map[string]int{}
+	for i, o := range fouts {
+		if o.suspect != "" && !fIsBad[i] {
+			return core.Infra("harness and specification disagree: reader mismatch %q is accepted by Trace_PageTree (seed %d)", o.suspect, o.c.Seed)
+		}
+		fstat["judged"]++
+		if o.c.Update != "" {
+			fstat["judged_with_incremental_update_"+o.c.Update]++
+		}
+		if o.c.ObjStm {
+			fstat["judged_with_nodes_in_object_streams"]++
+		}
+		depth, fan, empty, single, indirect := treeStats(o.c.Nodes)
+		if depth >= 5 {
+			fstat["judged_depth_ge_5"]++
+		}
+		if fan > Fan {
+			fstat["judged_fanout_gt_16"]++
+		}
+		if empty {
+			fstat["judged_with_empty_pages_node"]++
+		}
+		if single {
+			fstat["judged_with_single_kid_pages_node"]++
+		}
+		if indirect {
+			fstat["judged_with_indirect_attribute_values"]++
+		}
+	}
+	ctx.Ev.Set("reader_on_foreign_trees", fstat)
+	ctx.Ev.Set("shapes_from_tlc", len(shapes))
+	for _, o := range fouts {
+		if o.c.Update == "insert" && len(o.c.Nodes) <= 8 {
+			ctx.Ev.Sample(map[string]any{"kind": "foreign tree rendered by indep/ser and read by pagetree (record judged by Trace_PageTree)", "case": o.c, "iter": o.rec.Iter})
+			break
+		}
+	}
+
 	// evidence
 	var maxPages, withRanges, withCbs int
 	for _, o := range outs {
@@ -303,4 +379,34 @@ func run(ctx *core.Ctx) error {
 	ctx.Ev.Set("exhaustive_scope", "PageTree.tla: all interleavings within the constants of the MC_PageTree_*.cfg files; "+
 		"on the real code: every complete behaviour of Gen_PageTree_small*.cfg (scaled), simulated long behaviours beyond")
 	return nil
+}
+
+func treeStats(nodes []fnode) (depth, fan int, empty, single, indirect bool) {
+	var walk func(i, d int)
+	walk = func(i, d int) {
+		n := nodes[i-1]
+		if d > depth {
+			depth = d
+		}
+		if n.Ind != 0 {
+			indirect = true
+		}
+		if n.T != "Pages" {
+			return
+		}
+		if len(n.K) > fan {
+			fan = len(n.K)
+		}
+		if len(n.K) == 0 && i != 1 {
+			empty = true
+		}
+		if len(n.K) == 1 {
+			single = true
+		}
+		for _, k := range n.K {
+			walk(k, d+1)
+		}
+	}
+	walk(1, 0)
+	return
 }
